@@ -817,6 +817,14 @@ func selectRules(c *core.Ctx, codecs map[string]method05) {
 				continue
 			}
 			k.num = n8
+			// the wire number of a coding is the value of its constant (SMPP 3.4 data_coding / CMPP Msg_Fmt values are what
+			// the constants are declared as); the one documented exception is the library-private packed GSM 7-bit pseudo
+			// coding, which travels as data_coding 0
+			if n8 != k.val&0xff || k.val > 255 {
+				if !(k.codec == "GSM7Packed" && n8 == 0) {
+					c.Fail("C05-SELECT", key+"#number-value", c.Prog.Pos(toU8.Pos()), fmt.Sprintf("%s is declared as %d but ToUint8 puts %d on the wire: the peer decodes the content under another coding", k.name, k.val, n8))
+				}
+			}
 			if k.codec == "" {
 				c.Fail("C05-SELECT", key+"#codec", c.Prog.Pos(newFn.Pos()), "declared data coding without a codec")
 				continue
